@@ -1,6 +1,10 @@
 import Driver.Util
+import Driver.Snapshot
+import Driver.Config
 -- engines of work area Persist: import your Driver.<Engine> modules above and list them here
 namespace Driver.Reg.Persist
 def engines : List (String × IO UInt32) := [
+  ("snapshot", Driver.runEngine Driver.Snapshot.engine),
+  ("config", Driver.runEngine Driver.Config.engine)
 ]
 end Driver.Reg.Persist
